@@ -40,6 +40,34 @@ var props = []*PropDef{
 		},
 		Note: "Scale/ScaleWithFill/scale1DCode/scale2DCode, the two pixel closures, newScaledBC and every scaledBarcode accessor are verified against contracts; ghost lemma functions (zz_lemmas_verif.go, build tag verif) compose them into the statement: block grid of f x f copies, f maximal, centred within one pixel, fill elsewhere, pass-through accessors.",
 	},
+	{
+		ID: "C06",
+		Funcs: []string{"utils.RuneToInt", "utils.IntToRune", "utils.New1DCodeIntCheckSumWithColor",
+			"utils.(*base1DCode).Content", "utils.(*base1DCode).Metadata", "utils.(*base1DCode).Bounds", "utils.(*base1DCode).At", "utils.(*base1DCodeIntCS).CheckSum"},
+		Unwind: []UnwindDef{{Name: "ean", Run: unwindEAN}},
+		Tables: []string{"ean/tables"},
+		Harness: []Harness{
+			{Pkg: "ean", File: "c06_ean_test.go", Run: "TestVerifC06", Bound: "replay search / cross-check with the independent reference decoder onedspec.EANDecode on random and boundary inputs (the proof itself is complete: all strings of length 7, 8, 12, 13 symbolically, every other length rejected)"},
+		},
+		Assumptions: []string{
+			"string range decoding of bytes >= 0x80 is an uninterpreted UTF-8 decoder that returns a rune >= 0x80 and consumes 1..4 bytes (Go's decoder returns RuneError=0xFFFD or a rune >= 0x80 for such lead bytes)",
+			"BitList methods are used through their contracts (C18); representation invariants of package utils are trusted across the package boundary (encapsulation: unexported fields)",
+		},
+		Note: "Complete unwinding [C]: for each length 7/8/12/13 and each position of the first non-ASCII byte the real ean.EncodeWithColor (with calcCheckNum, encodeEAN8/13, New1DCode... inlined) runs on symbolic bytes; acceptance, Content, kind, colour, CheckSum and all 67/95 modules are compared with the GS1 symbol built from the standard's L/G/R/parity tables. Other lengths: rejected (symbolic length).",
+	},
+	{
+		ID: "C17",
+		Funcs: []string{"utils.(*GaloisField).AddOrSub", "utils.(*GaloisField).Multiply", "utils.(*GaloisField).Divide", "utils.(*GaloisField).Invers",
+			"utils.lemmaMulComm", "utils.lemmaMulAssoc", "utils.lemmaInverse", "utils.lemmaDivUndoesMul", "utils.lemmaDivIsMulInverse"},
+		Tables: []string{"gf/fields"},
+		Harness: []Harness{
+			{Pkg: "utils", File: "c17_gf_test.go", Run: "TestVerifC17", Bound: "BOUNDED stand-in for the ring identities (dividend == q*d + r; Encode makes data||check vanish at alpha^(Base+i)): exhaustive for small degrees over GF(16), seeded random polynomials / data / request orders over all 7 fields, against independent carry-less arithmetic"},
+		},
+		Assumptions: []string{
+			"polynomial division identity and Reed-Solomon syndrome-vanishing are NOT proved (needs ring-theory induction over convolution sums); they are covered by the bounded stand-in only",
+		},
+		Note: "Field tables of the 7 constructed fields are checked exhaustively against carry-less arithmetic modulo the standards' primitive polynomials [T]; commutativity, associativity, inverses and division for ALL operands follow from the table lemmas as discharged obligations (ghost lemma functions, split over the five field sizes).",
+	},
 }
 
 func findProp(id string) *PropDef {
